@@ -27,6 +27,8 @@ func init() {
 			c.floor("WRONGVAR", 2)
 			c.runAxisTags("AXIS", c.libPkgs()[1:2], c.fileFilter("model2d/rasterize.go"))
 			c.floor("AXIS", 8)
+			c.runSpawnJoin("SPAWNJOIN", append(c.libPkgs(), c.fixturePkg("w")))
+			c.floor("SPAWNJOIN", 2)
 			// pixel vs. model units in the rasteriser (Scale = px/L, LineWidth = px)
 			c.runUnits("UNIT", c.libPkgs()[1:2], c.fileFilter("model2d/rasterize.go"))
 			c.floor("UNIT", 2)
